@@ -200,14 +200,17 @@ pub fn magic_events(rng: &mut StdRng, sq: usize, rook: bool, complete: bool, chu
         let occ = bb_of(&sqs);
         push(occ);
         // noise outside the mask (edge squares of the rays included): the result must follow the geometry
-        let mut noisy = occ;
-        for _ in 0..rng.gen_range(1..12) {
-            let s = rng.gen_range(0..64);
-            if !mask.contains(&s) {
-                noisy.set(Coord::from_index(s));
+        let variants = if std::env::var("HARNESS_DEEP").is_ok() { 5 } else { 1 };
+        for _ in 0..variants {
+            let mut noisy = occ;
+            for _ in 0..rng.gen_range(1..12) {
+                let s = rng.gen_range(0..64);
+                if !mask.contains(&s) {
+                    noisy.set(Coord::from_index(s));
+                }
             }
+            push(noisy);
         }
-        push(noisy);
     }
     // random full occupancies
     for _ in 0..16 {
